@@ -4,6 +4,7 @@ import FqModel.Bitio
 import FqModel.C01Readers
 import FqModel.C01Spec
 import FqModel.C01Bitiox
+import FqModel.LargeObs
 /-! driver for C01
 
   `r64 <hex buf> <firstBit> <nBits>`            TAB `<value>|panic`      bitio.Read64
@@ -25,6 +26,13 @@ import FqModel.C01Bitiox
   obs: `<n> <hex|-> <ok|eof|off|neg|ueof|oth>` | `panic` | `hang`
        (bit reads: hex of the n bits, last byte zero padded; seeks: n = position; rf/raf: n = returned value,
         hex = the bits read into p)
+
+  `lg <kind> <seed> <nbytes> <off> <n> <pad> <args…>` TAB `<count> <error class> <fnv64 per 4096-byte block|-> <mm> [rc=<fnv64>]`
+                                                LARGE DATA (> 64 KiB): D = splitmix64 bytes regenerated from the seed; the denoted bits are
+                                                `pad` zero bits ++ bits [off, off+n) of D.  kinds rd (IOReader.Read in chunks), cp (bitiox.CopyBits*),
+                                                bw (IOBitWriter in pieces + Flush), buf (bitio.Buffer write/read interleaving) — see harness/cmd/c01/large.go.
+                                                Expected = the SPECIFICATION side of ioReader_bytes / copyBits_spec / ioBitWriter_flush / buffer_fifo
+                                                (the zero padded packing of the denoted bits; FIFO counts), compared by length + block hashes.
 
   verdict: the property predicate (cursor over `den`) on the implementation's observations — independent of
   the operational model — then model observations = implementation observations.
@@ -731,8 +739,87 @@ def bwVerdict (chunks : List String) (obs : String) : String :=
     if obs != expected then s!"PROPFAIL written {obs}, expected {expected}{div}"
     else if div.isEmpty then "OK" else s!"DIVERGE model={ms}"
 
+/-! ### large data: the byte view / the writers beyond 64 KiB (specification side of the theorems, block hashes) -/
+
+def fnvStr (h : UInt64) (s : String) : UInt64 := s.toUTF8.foldl (fun h b => (h ^^^ b.toUInt64) * 0x100000001b3) h
+
+/-- the hash of the sequence of counts a FIFO returns for the write/read schedule of kind `buf` (large.go) -/
+def bufCountsHash (n : Nat) (ps : Array Nat) : UInt64 := Id.run do
+  let mut h : UInt64 := 0xcbf29ce484222325
+  let mut done := 0
+  let mut avail := 0
+  let mut i := 0
+  for _ in [0:n + 1] do
+    if done ≥ n then break
+    let k := min (ps[(2 * i) % ps.size]!) (n - done)
+    done := done + k
+    avail := avail + k
+    let c := min (ps[(2 * i + 1) % ps.size]!) avail
+    avail := avail - c
+    h := fnvStr h s!"{c},"
+    i := i + 1
+  for _ in [0:n + 2] do
+    let c := min (max 1 (ps[(2 * i + 1) % ps.size]!)) avail
+    avail := avail - c
+    h := fnvStr h s!"{c},"
+    i := i + 1
+    if c == 0 then break
+  return h
+
+def parsePieces (s : String) : Option (Array Nat) := do
+  let l ← (s.splitOn ",").mapM (·.toNat?)
+  if l.isEmpty || l.any (· == 0) then none else pure l.toArray
+
+def lgVerdict (ws : List String) (obs : String) : String :=
+  match ws with
+  | kind :: seed :: nbytes :: off :: n :: pad :: args =>
+    match seed.toNat?, nbytes.toNat?, off.toNat?, n.toNat?, pad.toNat? with
+    | some seed, some nbytes, some off, some n, some pad =>
+      if off + n > 8 * nbytes || pad ≥ 8 || nbytes > 3000000 then "BADOP lg range" else
+      let srcOk (s : String) := ["s", "i", "m", "l"].contains s && pad == 0 || s == "t" && pad > 0
+      -- expected error class, whether `count` is in bits, expected rc
+      let spec : Option (String × Bool × Option String) := match kind, args with
+        | "rd", [s, c] => match c.toNat? with
+          | some c => if srcOk s && c > 0 then some ("eof", false, none) else none
+          | none => none
+        | "cp", [s, m, k] => match k.toInt? with
+          | some k => if srcOk s && (m == "w" || m == "b") && (k == -1 || k > 0) then some ("ok", false, none) else none
+          | none => none
+        | "bw", [ps] => if pad == 0 then (parsePieces ps).map (fun _ => ("ok", false, none)) else none
+        | "buf", [ps] => match parsePieces ps with
+          | some a => if pad == 0 && a.size % 2 == 0 then some ("eof", true, some s!"rc={LargeObs.hex64 (bufCountsHash n a)}") else none
+          | none => none
+        | _, _ => none
+      match spec with
+      | none => "BADOP lg args"
+      | some (expErr, inBits, expRc) =>
+        let d := LargeObs.genBytes seed nbytes
+        let exp := LargeObs.packBits d off n pad
+        if !LargeObs.selfCheck d off n pad exp then "BADOP packBits disagrees with bitsToBytesPadR" else
+        match words obs with
+        | ["panic"] => "PROPFAIL panic"
+        | cnt :: ec :: hs :: mm :: rest =>
+          match cnt.toInt? with
+          | none => "BADOP lg count"
+          | some cnt =>
+            let expCount : Int := if inBits then n else exp.size
+            let nb : Nat := if inBits then (cnt.toNat + 7) / 8 else cnt.toNat
+            let mmS := if mm == "-" then "" else s!" (harness reference differs at block:bytes {mm.take 80}…)"
+            if rest != expRc.toList then s!"PROPFAIL the counts returned by Buffer.ReadBits are not those of a FIFO ({rest})" else
+            match LargeObs.compare exp nb hs with
+            | some why => s!"PROPFAIL {why}{mmS}"
+            | none =>
+              if cnt != expCount then s!"PROPFAIL count {cnt}, expected {expCount}"
+              else if ec != expErr then s!"PROPFAIL error class {ec}, expected {expErr}"
+              else if mm != "-" then "BADOP the harness reference differs although the hashes agree"
+              else "OK"
+        | _ => "BADOP lg obs"
+    | _, _, _, _, _ => "BADOP lg numbers"
+  | _ => "BADOP lg syntax"
+
 def stepC01 (op obs : String) : String :=
   match words op with
+  | "lg" :: ws => lgVerdict ws obs.trimAscii.toString
   | ["r64", hex, fb, nb] => r64Verdict hex fb nb obs.trimAscii.toString
   | ["w64", v, nb, hex, fb] => w64Verdict v nb hex fb obs.trimAscii.toString
   | "bw" :: chunks => bwVerdict chunks obs.trimAscii.toString
